@@ -431,7 +431,14 @@ class Live(object):
             elif name in ('appendBlock', 'removeBlock'):
                 r = getattr(e, name)(self.blk(op[2]))
             elif name in ('appendBlocks', 'removeBlocks'):
-                r = getattr(e, name)([self.blk(b) for b in op[2]])
+                arg = [self.blk(b) for b in op[2]]
+                self.ncalls = getattr(self, 'ncalls', 0) + 1
+                # the argument is "a list of blocks" in the documentation; any iterable works on the unchanged library: every
+                # other call gets a one-shot iterator / a tuple (an implementation that walks the argument twice shows here)
+                given = iter(arg) if self.ncalls % 3 == 1 else tuple(arg) if self.ncalls % 3 == 2 else arg
+                r = getattr(e, name)(given)
+                if r is given:
+                    r = arg         # appendBlocks hands its argument back: "the blocks", whatever container they came in
             elif name == 'appendInnerHTML':
                 if op[2][0] == 'multi':
                     self.els.append(None)       # the invisible wrapper element is created first
@@ -444,7 +451,9 @@ class Live(object):
             elif name == 'removeChild':
                 r = e.removeChild(self.els[op[2]])
             elif name == 'removeChildren':
-                r = e.removeChildren([self.els[c] for c in op[2]])
+                arg = [self.els[c] for c in op[2]]
+                self.ncalls = getattr(self, 'ncalls', 0) + 1
+                r = e.removeChildren(iter(arg) if self.ncalls % 3 == 1 else tuple(arg) if self.ncalls % 3 == 2 else arg)
             elif name == 'setAttribute':
                 r = e.setAttribute(op[2], op[3])
             else:
@@ -627,6 +636,19 @@ def exhaustive_cases(depth2_sample, rng, kinds=('det', 'doc')):
             ops1 = list(all_ops(RefDoc(base)))
             for op in ops1:
                 yield dict(base, ops=[op])
+            # every two-call history made of insertions only (where an inserted element lands among `children` depends on
+            # what an earlier insertion put in front of the leading block)
+            ins1 = [o for o in ops1 if o[0] in ('insertBefore', 'insertAfter')]
+            if kind == 'det' and seed in SEEDS3[:3]:
+                for op1 in ins1[::9]:
+                    ref = RefDoc(base)
+                    try:
+                        ref.apply(op1)
+                    except Exception:
+                        continue
+                    for op2 in all_ops(ref):
+                        if op2[0] in ('insertBefore', 'insertAfter'):
+                            yield dict(base, ops=[op1, op2])
             for _ in range(depth2_sample):
                 op1 = rng.choice(ops1)
                 ref = RefDoc(base)
